@@ -47,6 +47,15 @@ CHECKS = {
     "C11": ("runtime oracle monitor over the exhaustively enumerated calendar + icontract class invariant on Dekad + accessor/scalar differential",
             "Every one of the 3,652,059 dates and 359,964 dekads is pushed through the real Dekad class and each public attribute/operator observation is compared with an oracle built from calendar.monthrange; an icontract invariant watches the class during contract shards and the .time.dekad accessor is compared element-wise. The space is finite and enumerated completely; integer offsets are a hostile sample.",
             "trusts calendar.monthrange/datetime; offsets n from a fixed hostile set; accessor axes sampled (ns range 1678-2261)", "DESIGN.md §3 C11"),
+    "C12": ("configuration-sweep pair monitor (eager vs dask: chunkings x schedulers x dim orders, delay injection at the kernel boundary), pixel-permutation pairs, prange thread-count sweep on both threading layers, sys.monitoring yield injection into the lazy-compile race",
+            "Every accessor operation is computed eagerly and on dask-backed data under sampled (thorough: all) combinations of y/x chunking, scheduler (synchronous, 1/2/16 threads) and dim order with values, dims, coords, declared and computed dtype compared bit for bit; kernels are delayed by seeded sleeps so blocks finish out of order (orders recorded); ws2doptvplc_tyx runs under 1..16 threads on omp and workqueue; N threads race on the first call of lazily compiled kernels with sleeps injected between the None test and the assignment, closure cell reset between rounds. " + EXPL,
+            "interleavings are sampled, not enumerated; Numba's compiler lock is trusted; a refused (raising) time-chunked input is allowed", "DESIGN.md §3 C12"),
+    "C13": ("differential monitor compiled vs interpreted execution of the same code object (35 programs, all signature dtypes) + special-function differential (scipy ufuncs bit-equal, mpmath)",
+            "Identical in-contract inputs go to each compiled kernel and to its own code object run by CPython with NumPy semantics (callees stay compiled); floats to 1e-9 (float32 inputs: single precision, scaled by the conditioning of the gamma fit), integers equal up to tapped rounding ties, lambdas up to tapped criterion ties; digamma/gammainc/ndtri inside nopython code are compared with scipy.special (bit-equal) and mpmath. " + EXPL,
+            "shim maps Numba type names to NumPy scalars and performs the C-style cast of np.round(z,0,out); loop-bound scalars are passed as ints; log(0) domain errors of the interpreted V-curve are an excluded, counted class", "DESIGN.md §3 C13"),
+    "C14": ("NUMBA_BOUNDSCHECK=1 sanitizer runs of all 35 programs on minimum/edge/random in-contract inputs + poisoned output buffers + index-recording guard arrays on the interpreted kernels",
+            "Each program is re-JITted with bounds checks and driven with boundary-sized inputs (a built-in probe proves the sanitizer fires); gufunc outputs pre-filled with two poison patterns must come back identical (every element written); njit results must repeat; the interpreted gufunc kernels run on arrays that record written cells and negative indices. " + EXPL,
+            "bounds checking is Numba's own instrumentation of the same LLVM-generated kernels; it accepts negative wrap-around indices (recorded by the guard shards)", "DESIGN.md §3 C14"),
     "C15": ("reference model from the definition (float64 and exact rationals) + range/affine/encoding/layout monitors",
             "autocorr_1d (int/nodata and float/NaN), autocorr, autocorr_tyx and the accessor in both layouts are compared with the Pearson r of the mean-filled vectors over random, outage, leading/trailing and heavy gap patterns. " + EXPL,
             "|x| <= 9000 so integer sums are exact; float tolerance scales with max|x|^2 n / SSD", "DESIGN.md §3 C15"),
